@@ -242,7 +242,9 @@ check("C07", "model_checking",
       "0..150 by counting. TLC exports validator-set shapes x vote lists; each is realised with real keys in a real IdentityStateDB / "
       "ValidatorsCache, real signed votes (stale round/step/hash/parent, flag variants, duplicates, malleated and unrecoverable "
       "signatures), the real Compress + wire codec, ValidateBlockCert three ways, pengings.Votes + the real countVotes; TLC validates "
-      "every recorded outcome against Trace_Cert (Params, Committee, Eligibility, Required, Sound, Complete, CounterSound, Deterministic).",
+      "every recorded outcome against Trace_Cert (Params, Committee, Eligibility, Required, Sound, Complete, CounterSound, Deterministic). "
+      "Next to TLC's bounded runs, CertProof.tla carries TLAPS proofs (92 obligations) of the specification-level halves for ANY number of "
+      "votes, approved set and required count: AcceptA => QuorumA, QuorumA /\\ NoForeignA => AcceptA, and the counter's quorum.",
       "quick: 48k + 16k states, ~18k trace lines; thorough: 433k + 34k states, ~153k lines; the seeded committee permutation is an "
       "input (constrained, not modelled); float rounding ties admit both roundings; at most one deviating vote per exported case; "
       "engine call sites computing the necessary vote count are replicated in the driver; MaxKnownVotes eviction and gossip are outside",
